@@ -360,3 +360,81 @@ def nx_bfs_edges(interp, g, source, reverse=False, depth_limit=None, sort_neighb
 
 
 CONST["omegaconf.MISSING"] = "???"
+
+
+# ------------------------------------------------------------------------- scipy / misc
+
+
+def _total(costs):
+    acc = 0.0
+    for x in costs:
+        acc = V.f_add(acc, x)
+    return acc
+
+
+@lib("scipy.optimize.linear_sum_assignment")
+def scipy_lsa(interp, cost_matrix, maximize=False):
+    """Trusted contract (scipy docs + observed error): for an R x C matrix returns (rows, cols)
+    of a complete assignment of min(R, C) pairs with minimal total cost, rows ascending; raises
+    ValueError('cost matrix is infeasible') when every complete assignment has infinite cost,
+    and ValueError on NaN / -inf entries.  Which of several optimal assignments is returned is
+    unspecified (explored by nondeterministic choice)."""
+    import itertools
+
+    cm = cost_matrix
+    if not (isinstance(cm, STensor) and cm.rank == 2 and all(isinstance(d, int) for d in cm.shape)):
+        raise Unsupported("linear_sum_assignment on a matrix of symbolic shape")
+    if maximize:
+        raise Unsupported("linear_sum_assignment(maximize=True)")
+    R, C = cm.shape
+    rd = cm.reader()
+    for i in range(R):
+        for j in range(C):
+            v = rd([i, j])
+            bad = V.b_or(V.f_isnan(v), V.b_and(V.f_isinf(v), V.f_lt(v, 0.0)))
+            interp.path.require(V.b_not(bad), "ValueError", "matrix contains invalid numeric entries")
+    k = min(R, C)
+    if k == 0:
+        return (T.from_flat([0], [], INT, kind="numpy"), T.from_flat([0], [], INT, kind="numpy"))
+    assigns = []
+    if R <= C:
+        for cols in itertools.permutations(range(C), R):
+            assigns.append(list(zip(range(R), cols)))
+    else:
+        for rows in itertools.permutations(range(R), C):
+            pairs = sorted(zip(rows, range(C)))
+            assigns.append(pairs)
+    fin = lambda a: V.b_and(*[V.f_isfinite(rd([i, j])) for (i, j) in a])
+    feasible = V.b_or(*[fin(a) for a in assigns])
+    interp.path.require(feasible, "ValueError", "cost matrix is infeasible")
+    pick = interp.path.choose(len(assigns), "linear_sum_assignment")
+    a = assigns[pick]
+    tot = _total([rd([i, j]) for (i, j) in a])
+    interp.path.assume(V.zbool(fin(a)))
+    for b in assigns:
+        if b is a:
+            continue
+        tb = _total([rd([i, j]) for (i, j) in b])
+        interp.path.assume(V.zbool(V.b_implies(fin(b), V.f_le(tot, tb))))
+    rows = T.from_flat([k], [i for (i, j) in a], INT, kind="numpy")
+    cols = T.from_flat([k], [j for (i, j) in a], INT, kind="numpy")
+    return (rows, cols)
+
+
+@lib("typing.Deque")
+def typing_deque(interp, *a, **k):
+    from .lib_py import Deque
+
+    return Deque(*a, **k)
+
+
+class GhostTrack:
+    __pyvc_native__ = True
+
+    def __init__(self, name):
+        self.name = name
+
+
+@lib("sleap_io.Track")
+def sio_track(interp, name=""):
+    return GhostTrack(name)
